@@ -75,3 +75,5 @@ Theorem C08_full_restore_keeps_rate_frame : forall fcos fsin fasin fatan2 d2r (s
   restore_without_frame fcos fsin fasin fatan2 d2r s = mk_fs (f_p s) (f_q s) (f_v s) (f_w s) FBody.
 Proof. intros. split; [apply restore_id | apply restore_without_frame_loses_it]; assumption. Qed.
 Print Assumptions C08_full_restore_keeps_rate_frame.
+Example C08_restore_nonvacuous : qn2 (Q4 1 0 0 0 : quat R) = 1.
+Proof. unfold qn2, quat_norm2; cbn; rnum. ring. Qed.
